@@ -813,6 +813,27 @@ func mutateConfig(c *cors.Config) {
 	c.Origins = append(c.Origins[:0], "https://evil.example")
 }
 
+// mutateConfigValid overwrites, in place, the first element of every list of a Config the caller still holds with another
+// acceptable value: the Config stays valid but means something else.  Handing it to Reconfigure again must put the new
+// meaning in force (a Reconfigure that compares its argument with a remembered, aliased copy would skip it).
+func mutateConfigValid(c *cors.Config) {
+	if c == nil {
+		return
+	}
+	if len(c.Origins) > 0 {
+		c.Origins[0] = "https://mutated-by-caller.example"
+	}
+	if len(c.Methods) > 0 && c.Methods[0] != "*" {
+		c.Methods[0] = "MUTATED"
+	}
+	if len(c.RequestHeaders) > 0 && c.RequestHeaders[0] != "*" {
+		c.RequestHeaders[0] = "X-Mutated-By-Caller"
+	}
+	if len(c.ResponseHeaders) > 0 && c.ResponseHeaders[0] != "*" {
+		c.ResponseHeaders[0] = "X-Mutated-By-Caller"
+	}
+}
+
 func errCount(err error) string {
 	n := 0
 	for range cfgerrors.All(err) {
@@ -827,6 +848,7 @@ func historyCase(g *gen, e *emitter, caseNo int) {
 	mws := make([]*cors.Middleware, nm)
 	shadow := make([]*decider, nm) // harness-side record of the configuration last applied successfully
 	cur := make([]*cors.Config, nm) // the Config value last applied successfully (nil: passthrough)
+	held := make([]*cors.Config, nm) // adversarial: the very Config value the caller passed last and still holds
 	// a small pool of configurations: two accepted ones, one invalid
 	var pool []cors.Config
 	for len(pool) < 3 {
@@ -945,7 +967,25 @@ func historyCase(g *gen, e *emitter, caseNo int) {
 	steps := 4 + g.n(10)
 	for s := 0; s < steps; s++ {
 		k := g.n(nm)
-		switch g.n(9) {
+		op := g.n(9)
+		if adversarial && held[k] != nil && g.p(40) {
+			op = 9
+		}
+		switch op {
+		case 9:
+			// the caller hands the Config it still holds - edited in place since - to Reconfigure again
+			c := held[k]
+			held[k] = nil
+			e.emit("h.reconf\t"+ids[k]+"\t"+encConfig(c)+"\t"+oracleFor(c.Origins), guard(func() string {
+				if err := mws[k].Reconfigure(c); err != nil {
+					return errCount(err)
+				}
+				shadow[k] = newDecider(c)
+				cc := cloneCfg(*c)
+				cur[k] = &cc
+				return "ok"
+			}))
+			mutateConfig(c)
 		case 7, 8:
 			base := pool[g.n(len(pool))]
 			if cur[k] != nil {
@@ -989,7 +1029,12 @@ func historyCase(g *gen, e *emitter, caseNo int) {
 				return "ok"
 			}))
 			if adversarial {
-				mutateConfig(&c)
+				if g.p(50) {
+					mutateConfigValid(&c)
+					held[k] = &c
+				} else {
+					mutateConfig(&c)
+				}
 			}
 		case 5:
 			c := cloneCfg(invalid)
